@@ -2,8 +2,8 @@
 """Run every seeded change against its checks (quick tier) and print one line per (mutant, property)."""
 import json, os, subprocess, sys, re
 ROOT='/verif'
-CHECKS={'C01':['C01'],'C02':['C02'],'C05':['C05'],'C06':['C06'],'C07':['C07'],'C08':['C08'],'C13':['C13','C01'],'C14':['C14'],
-        'C15':['C15'],'C16':['C16'],'C18':['C18','C15'],'C19':['C19','C01']}
+# by default every change is run against the check of its own property (the directory name's prefix)
+CHECKS={}
 rows=[]
 for d in sorted(os.listdir(ROOT+'/seeded')):
     p=os.path.join(ROOT,'seeded',d,'patch.diff')
@@ -14,7 +14,7 @@ for d in sorted(os.listdir(ROOT+'/seeded')):
     if subprocess.run(['git','-C','/repo','apply',p]).returncode!=0:
         rows.append((d,'-','patch does not apply')); continue
     try:
-        for pid in CHECKS[prop]:
+        for pid in CHECKS.get(prop,[prop]):
             r=subprocess.run([ROOT+'/check',pid,'--tier','quick'],cwd=ROOT,stdout=subprocess.PIPE,stderr=subprocess.STDOUT)
             out=r.stdout.decode('utf-8','replace')
             kind='ok'
